@@ -209,3 +209,83 @@ class loader_order:
 
 
 CONTRACTS = [first_success_law, loader_order]
+
+
+class parse_wrapper_selection:
+    """dateparser.parse(): every selection argument the caller gives reaches the parser that answers.
+    For each of the 32 combinations of {languages, locales, region, detect_languages_function,
+    settings} given / not given: if any is given, a DateDataParser constructed with exactly the given
+    arguments produces the result; if none is, the shared default parser does.  DateDataParser and the
+    default parser are replaced by recorders; `parse` itself (and apply_settings) is the real code."""
+
+    name = "dateparser.parse/selection-arguments-reach-the-parser"
+    func = "dateparser.parse"
+    props = ["C13"]
+    concrete_samples = 1
+
+    @staticmethod
+    def cases():
+        import itertools
+
+        return [dict(languages=a, locales=b, region=c, detect=d, settings=e)
+                for a, b, c, d, e in itertools.product((False, True), repeat=5)]
+
+    @staticmethod
+    def setup(inp, case):
+        import dateparser
+
+        calls = []
+
+        class Recorder:
+            def __init__(self, **kw):
+                self.kw = kw
+
+            def get_date_data(self, s, formats=None):
+                calls.append(("constructed", self.kw, s, formats))
+                return {"date_obj": "R"}
+
+        class Default:
+            def get_date_data(self, s, formats=None):
+                calls.append(("default", None, s, formats))
+                return {"date_obj": "D"}
+
+        dateparser.DateDataParser = Recorder
+        dateparser._default_parser = Default()
+        fn = (lambda text, confidence_threshold: ["en"])
+        args = dict(languages=["en"] if case["languages"] else None,
+                    locales=["en-AU"] if case["locales"] else None,
+                    region="AU" if case["region"] else None,
+                    detect_languages_function=fn if case["detect"] else None,
+                    settings={"DATE_ORDER": "DMY"} if case["settings"] else None)
+
+        def run():
+            r = dateparser.parse("02/03/2015", date_formats=["%d"], **args)
+            return r, calls
+
+        return run, (), {}, dict(args=args)
+
+    @staticmethod
+    def post(case, g, out):
+        if not out.ok:
+            return {"no-exception": False}
+        r, calls = out.value
+        a = g["args"]
+        res = {"no-exception": True, "exactly-one-parser-asked": len(calls) == 1}
+        if len(calls) != 1:
+            return res
+        kind, kw, s, formats = calls[0]
+        res["string-and-formats-passed-on"] = s == "02/03/2015" and formats == ["%d"]
+        if any(case[k] for k in ("languages", "locales", "region", "detect", "settings")):
+            ok = kind == "constructed" and r == "R" and kw.get("languages") == a["languages"] \
+                and kw.get("locales") == a["locales"] and kw.get("region") == a["region"] \
+                and kw.get("detect_languages_function") is a["detect_languages_function"]
+            st = kw.get("settings") if kind == "constructed" else None
+            if case["settings"]:
+                ok = ok and st is not None and getattr(st, "DATE_ORDER", None) == "DMY"
+            res["a-parser-built-from-exactly-the-given-arguments-answers"] = ok
+        else:
+            res["the-default-parser-answers"] = kind == "default" and r == "D"
+        return res
+
+
+CONTRACTS += [parse_wrapper_selection]
